@@ -37,6 +37,16 @@ impl Lockfile {
     fn _lock<P: AsRef<Path>>(path: P, what: libc::c_int) -> Result<Option<Self>, Error> {
         // Hold ACTIVELY_LOCKING during the entire lock protocol.
         let mut lock_table = ACTIVELY_LOCKING.lock().unwrap();
+        // See if this process already holds the lock before opening the file:  closing any
+        // descriptor for a file releases every fcntl lock the process holds on that file, so a
+        // refused attempt must not open (and then close) one.
+        if let Ok(metadata) = std::fs::metadata(path.as_ref()) {
+            for (dev, ino) in lock_table.iter() {
+                if *dev == metadata.dev() && *ino == metadata.ino() {
+                    return Ok(None);
+                }
+            }
+        }
         // Open the lock.  It doesn't matter if the lock file already exists.
         let file = OpenOptions::new()
             .read(true)
@@ -45,13 +55,7 @@ impl Lockfile {
             .truncate(true)
             .mode(0o600)
             .open(path)?;
-        // Use the metadata to see if this process already holds a lock.
         let metadata = file.metadata()?;
-        for (dev, ino) in lock_table.iter() {
-            if *dev == metadata.dev() && *ino == metadata.ino() {
-                return Ok(None);
-            }
-        }
         // NOTE(rescrv): l_type,l_whence is 16 bits on some platforms and 32 bits on others.
         // The annotations here are for cross-platform compatibility.
         #[allow(clippy::useless_conversion)]
